@@ -531,7 +531,7 @@ CLAIM = {
              "input's data can reach which input's array. These are necessary conditions for every dataset; the numbers are not examined.",
     "note": "Trusted: CPython ast, vsa symbolic folding with event log (loops unrolled twice with distinct symbolic indices), numpy masking "
             "semantics. Not decided: equality of the resulting numbers; inputs whose dimension values collide numerically (C02/C03).",
-    "technique": "static analysis: symbolic def-use folding with store/call event log, provenance of cache stores, loop-range and "
+    "technique": "static analysis: C01.3 the per-input loader loop has no early exit; symbolic def-use folding with store/call event log, provenance of cache stores, loop-range and "
                  "ordering (must-complete-before) checks; C01.2 by case evaluation (the function folded with the axis fixed to All / another "
                  "axis, the list stored in the request cache taken apart: copy + NaN at np.where(valid == 0) resp. cut at np.where(valid), one "
                  "mask = AND of isnan==0 & isinf==0 over all requested fields, NaN placeholder, what is returned); functions proven "
